@@ -70,8 +70,8 @@ inductive Cat where
 
 /-- who is responsible for the elements reachable through a slot -/
 def Slot.cat : Slot → Cat
-  | .empty | .str _ => .none
-  | .box .. | .pin _ | .arr .. | .slice .. | .any .. | .fn _ | .vec .. => .owned
+  | .empty => .none
+  | .box .. | .pin _ | .arr .. | .slice .. | .any .. | .fn _ | .vec .. | .str _ => .owned
   | .raw .. | .rawSlice .. => .escaped
   | .leaked .. | .leakedSlice .. => .leaked
 
@@ -314,7 +314,7 @@ def create (w : W) (s : Nat) (new : Slot) (nfresh : Nat) (fx : Fx) : Eff × Stri
   | some .empty => (.upd s new nfresh fx true, "ok")
   | _ => skip
 
-/-- The operation's effect on the world and its result text.  `z`: zero-sized elements (rendering only). -/
+/-- The operation's effect on the world and its result text.  `z`: zero-sized elements (rendering, and the capacity a `Vec` reports). -/
 def effOf (z : Bool) (op : Op) (w : W) : Eff × String :=
   let id0 := w.nextId
   match op with
@@ -353,7 +353,7 @@ def effOf (z : Bool) (op : Op) (w : W) : Eff × String :=
       let (p, fx) := dropGlue pa cs 0 false {}
       (.upd s .empty 0 fx true, if p then "panic" else "ok")
     | some sl =>
-      if sl.cat == .owned || (match sl with | .str _ => true | _ => false) then
+      if sl.cat == .owned then
         let (p, fx) := boxDrop sl.cells pa {}
         (.upd s .empty 0 fx false, if p then "panic" else "ok")
       else skip
@@ -442,7 +442,8 @@ def effOf (z : Bool) (op : Op) (w : W) : Eff × String :=
     match w.slots[s]? with
     | some (.slice cs (some cap)) =>
       let (p, fx) := sliceToVec cs {}
-      (.upd s (.vec p cap) 0 fx false, "ok")
+      -- a `RawVec` of zero-sized elements reports capacity `usize::MAX` whatever it was given
+      (.upd s (.vec p (if z then 2 ^ 64 - 1 else cap)) 0 fx false, "ok")
     | _ => skip
   | .vecPush s x =>
     match w.slots[s]? with
